@@ -8,6 +8,7 @@ import (
 	"time"
 
 	"github.com/scrapli/scrapligo/driver/opoptions"
+	"github.com/scrapli/scrapligo/transport"
 	"github.com/scrapli/scrapligo/util"
 
 	"verif/internal/devsim"
@@ -82,6 +83,21 @@ func normalise(stream []byte, esc [][2]int) string {
 	return b.String()
 }
 
+// closeErrConn is a transport whose Close does close the connection but reports an error (far end
+// already gone, pty torn down under it).
+type closeErrConn struct {
+	*devsim.AuthConn
+}
+
+// ErrCloseComplains is what closeErrConn.Close returns.
+var ErrCloseComplains = errors.New("c10: close: transport endpoint is not connected (injected)")
+
+// Close implements transport.Implementation.
+func (c *closeErrConn) Close() error {
+	c.AuthConn.Close()
+	return ErrCloseComplains
+}
+
 // RunDialogue drives the real library through the dialogue and judges it.
 func RunDialogue(d Dialogue, h *Hooks) (mon.Result, *Info) {
 	a := Analyse(&d)
@@ -93,7 +109,10 @@ func RunDialogue(d Dialogue, h *Hooks) (mon.Result, *Info) {
 	}
 	conn := devsim.NewConn(dev, cfg)
 	defer conn.Abandon()
-	ac := &devsim.AuthConn{Conn: conn, SSH: d.SSHArgs()}
+	var ac transport.Implementation = &devsim.AuthConn{Conn: conn, SSH: d.SSHArgs()}
+	if d.CloseErr {
+		ac = &closeErrConn{AuthConn: &devsim.AuthConn{Conn: conn, SSH: d.SSHArgs()}}
+	}
 	var extra []util.Option
 	if h != nil {
 		extra = h.ExtraOpts
@@ -230,6 +249,17 @@ func RunDialogue(d Dialogue, h *Hooks) (mon.Result, *Info) {
 		obs["custom_pattern_dialogues"] = 1
 	}
 	tags = append(tags, "credentials="+d.CredConfig())
+	if d.CloseErr {
+		obs["close_returns_error_dialogues"] = 1
+		tags = append(tags, "close-error:outcome="+got)
+	}
+	for _, st := range d.Steps[:min(a.Decisive+1, len(d.Steps))] {
+		if st.Kind == KUser && d.UserPat == "" && !st.Uncut {
+			if t := strings.TrimRight(st.Text, " \t"); !strings.HasSuffix(strings.ToLower(t), "login:") && !strings.HasSuffix(strings.ToLower(t), "username:") || len(st.Text)-len(t) > 1 {
+				obs["user_prompts_with_text_after_colon"]++
+			}
+		}
+	}
 	if d.Password == "" || d.Auth == "ssh" && d.Passphrase == "" || d.Auth == "telnet" && d.User == "" {
 		obs["dialogues_with_unconfigured_credential"] = 1
 	}
@@ -620,6 +650,8 @@ func init() {
 			"lines that merely contain a credential word and end in another colon (\"Password policy: ... contact:\") are ordinary text for the default patterns and are generated under any segmentation",
 			"outcome 'timeout' uses TimeoutOps 300 ms; all other plans 4 s, so load cannot turn them into timeouts; a timeout against expectation counts only if the transport had delivered the deciding byte and the load canary is healthy",
 			"the first command ends in '!' which occurs nowhere else in the stream",
+			"prompt spellings cover the language the default patterns accept: 'username:' anywhere in a line with any text or blanks after it, a line ending in 'login:'/'password:' plus at most one white-space character (blank or tab) with any text before, 'enter passphrase for key' anywhere in a line",
+			"in one dialogue of six the transport's Close closes the connection but returns an error; the error class of a failed login is judged the same",
 			"connection loss: Open must fail unless the deciding bytes of a successful login had been delivered before the loss (then the first operation may fail or must succeed completely); 'promptly' = within 1.5 s at TimeoutOps 4 s, read delay <= 250 us, judged only with a healthy load canary",
 		},
 		Gen: func(tier string, seed int64) []mon.Case {
